@@ -412,12 +412,18 @@ func (k c15) Run(c *rt.Ctx) {
 		switch c.R.Intn(6) {
 		case 0:
 			k.betweenBounds(c)
+			if i%2 == 0 {
+				k.betweenBare(c)
+			}
 		case 1:
 			k.namedFieldFixpoint(c)
 		case 2:
 			k.tightAfterLiteral(c)
 		case 3:
 			k.shownFilter(c)
+			if i%3 == 0 {
+				k.shownFolded(c)
+			}
 		default:
 			k.randomTree(c)
 		}
@@ -490,6 +496,40 @@ func (k c15) betweenBounds(c *rt.Ctx) {
 			k.compare(c, twin, fixed.Print(twin), "tree / twin differing in the letter case inside literals")
 		}
 	}
+}
+
+// betweenBare: sums and products as BETWEEN bounds written without parentheses - the bound
+// extends over the arithmetic and ends at the first Boolean operator.
+func (k c15) betweenBare(c *rt.Ctx) {
+	r := c.R
+	n := func() *gen.Node { return gen.Int(int64(r.Range(1, 9))) }
+	iv := gen.Call("int", gen.Value())
+	var tree *gen.Node
+	var text string
+	a, b, d, e := n(), n(), n(), n()
+	p := gen.Print
+	switch r.Intn(5) {
+	case 0:
+		op := []string{"+", "-"}[r.Intn(2)]
+		tree = gen.Between(iv, a, gen.Bin(op, b, d))
+		text = "int(value) between " + p(a) + " and " + p(b) + " " + op + " " + p(d)
+	case 1:
+		tree = gen.And(gen.Between(iv, a, gen.Bin("+", gen.Bin("*", b, d), e)), gen.Bin("^=", gen.Key(), gen.Str("k")))
+		text = "int(value) between " + p(a) + " and " + p(b) + " * " + p(d) + " + " + p(e) + " & key ^= 'k'"
+	case 2:
+		tree = gen.Between(gen.Call("strlen", gen.Key()), gen.Bin("+", a, b), gen.Bin("-", d, e))
+		text = "strlen(key) between " + p(a) + " + " + p(b) + " and " + p(d) + " - " + p(e)
+	case 3:
+		tree = gen.Or(gen.Between(gen.Key(), gen.Str("a"), gen.Bin("+", gen.Str("b"), gen.Str("c"))), gen.Bin("=", gen.Value(), gen.Str("x")))
+		tree.Sym = false
+		text = "key between 'a' and 'b' + 'c' or value = 'x'"
+	default:
+		tree = gen.And(gen.Bin("^=", gen.Key(), gen.Str("k")), gen.Between(iv, gen.Bin("*", a, b), gen.Bin("+", d, gen.Bin("*", e, a))))
+		text = "key ^= 'k' & int(value) between " + p(a) + " * " + p(b) + " and " + p(d) + " + " + p(e) + " * " + p(a)
+	}
+	c.Rec.Inc("between_bounds_without_parentheses")
+	c.Rec.Inc("tree_compared")
+	k.compare(c, tree, text, "tree")
 }
 
 func c15SwapCase(s string) string {
@@ -716,6 +756,57 @@ func (k c15) shownFilter(c *rt.Ctx) {
 		if !strings.Contains(last, "Filter = '"+shown+"'}") {
 			c.Violation("shown-filter-not-a-fixpoint", "second rendering differs", det)
 		}
+	}
+}
+
+// shownFolded: folded float constants that need all their digits, over stored values lying
+// between the constant and its shorter spellings: the shown filter selects the same rows.
+func (k c15) shownFolded(c *rt.Ctx) {
+	r := c.R
+	rec := c.Rec
+	pairs := []refstore.Pair{{K: "a", V: "0.3"}, {K: "b", V: "0.30000000000000004"}, {K: "c", V: "0.1"}, {K: "d", V: "0.33333334"}, {K: "e", V: "0.3333333333333333"},
+		{K: "f", V: "16777217"}, {K: "g", V: "16777216"}, {K: "h", V: "0.30000001192092896"}, {K: "i", V: "0.6000000000000001"}, {K: "j", V: "0.6"}}
+	konst := []string{"0.1 + 0.2", "1 / 3.0", "16777217 * 1.0", "0.2 + 0.1", "0.3 + 0.3 + 0.0000000000000001", "float('0.1') * 3", "0.1 * 3"}[r.Intn(7)]
+	op := []string{">=", ">", "<", "<=", "="}[r.Intn(5)]
+	w := "float(value) " + op + " " + konst
+	if r.Chance(1, 3) {
+		w = konst + " " + op + " float(value)"
+	}
+	if r.Chance(1, 3) {
+		w += " & key != 'zz'"
+	}
+	mode := drive.Mode{Batch: r.Bool(), Size: 3, Cache: true}
+	q1 := "select key, value where " + w
+	o1 := drive.Run(q1, refstore.New(pairs), mode)
+	rec.Eval(1)
+	if o1.Status() != "ok" {
+		rec.NotJudged("statement for the shown-filter comparison did not run: " + firstWords(stripPos(o1.ErrText())))
+		return
+	}
+	shown := ""
+	if len(o1.Explain) > 0 {
+		last := o1.Explain[len(o1.Explain)-1]
+		if i := strings.Index(last, "FullScanPlan{Filter = '"); i >= 0 && strings.HasSuffix(last, "'}") {
+			shown = last[i+len("FullScanPlan{Filter = '") : len(last)-2]
+		}
+	}
+	if shown == "" {
+		rec.NotJudged("no full-scan line with a filter in Explain()")
+		return
+	}
+	rec.Inc("shown_filters_with_long_folded_floats")
+	q2 := "select key, value where " + shown
+	o2 := drive.Run(q2, refstore.New(pairs), mode)
+	rec.Eval(1)
+	det := func() rt.D {
+		return rt.D{"query": q1, "explain": o1.Explain, "shown_filter": shown, "second_query": q2, "rows": fmt.Sprint(o1.Rows), "rows_of_shown_filter": fmt.Sprint(o2.Rows), "second_outcome": outcomeBrief(o2)}
+	}
+	if o2.Status() != "ok" {
+		c.Violation("shown-filter-does-not-run", firstWords(stripPos(o2.ErrText())), det)
+		return
+	}
+	if fmt.Sprint(o1.Rows) != fmt.Sprint(o2.Rows) {
+		c.Violation("shown-filter-is-not-the-executed-filter", "rows differ (folded float)", det)
 	}
 }
 
